@@ -141,6 +141,8 @@ def run(chk):
                         okg = True       # the timeout test on last_pong
                     elif info and info.get("kind") == "enum":
                         okg = True       # which Restion / Result arm the poll took is handled by the rules above
+                    elif desc_contains(gdesc, lambda y: y[0] == "call" and core.re.search(r"mpsc::Receiver::<T>::(try_recv|recv|recv_timeout)$|mpsc::Receiver::(try_recv|recv)$", y[1]) is not None):
+                        okg = True       # the shutdown / channel polls of the outer loop
                 if not okg:
                     odd.append((lab, core.short(str(gdesc))[:70]))
             chk.ob("R2.heartbeat", fn, "when a ping is due, every registered stream is pinged (no other condition on the ping)", not odd,
